@@ -113,6 +113,8 @@ def build_slice(path, entries, tier, log):
         q = os.path.normpath(os.path.join(os.path.dirname(path), m.group(1)))
         if os.path.exists(q):
             incs += open(q, "rb").read()
+    for mg in re.finditer(r"^\s*//\s*@gen\s+(\S+)", open(path).read(), re.M):
+        incs += open(os.path.join(os.path.dirname(path), mg.group(1)), "rb").read()
     key = _h(libtag, open(path, "rb").read(), rt, incs, tier, ",".join(entries))
     name = os.path.splitext(os.path.basename(path))[0]
     wd = os.path.join(P.BUILD, "s", "%s-%s" % (name, key))
@@ -125,7 +127,16 @@ def build_slice(path, entries, tier, log):
     fcntl.flock(lock, fcntl.LOCK_EX)       # one builder per slice; the others wait and reuse
     if os.path.exists(ll):
         return ll, wd
-    hb = P.compile_harness(path, wd, extra_flags=["-DVF_TIER=%d" % (2 if tier == "thorough" else 1)])
+    # "// @gen script.py out.inc": the include is regenerated from the current /repo source before the harness is compiled
+    gen_flags = []
+    for ln in open(path):
+        mg = re.match(r"\s*//\s*@gen\s+(\S+)\s+(\S+)", ln)
+        if mg:
+            gd = os.path.join(wd, "gen")
+            os.makedirs(gd, exist_ok=True)
+            P.run([sys.executable, os.path.join(os.path.dirname(path), mg.group(1)), P.REPO, os.path.join(gd, mg.group(2))])
+            gen_flags = ["-I" + gd]
+    hb = P.compile_harness(path, wd, extra_flags=["-DVF_TIER=%d" % (2 if tier == "thorough" else 1)] + gen_flags)
     linked = os.path.join(wd, "linked.bc")
     P.run([P.LLVM_LINK, lib, "--override", hb, "-o", linked])
     api = ",".join(entries)
